@@ -5,6 +5,7 @@ pub mod regexdfa;
 pub mod bignum;
 pub mod docgen;
 pub mod invariants;
+pub mod specvalid;
 
 use serde_json::{json, Value};
 use std::collections::{BTreeMap, BTreeSet};
